@@ -143,17 +143,38 @@ theorem C17_headline_with_port_rejects (e : Env) (u : Url) (p : Option Int) (k :
 
 /-! ## build(port=…) (not in the property text, same semantics) -/
 
-/-- build(host=…, port=…): a port equal to the scheme default is DROPPED at build time, any other port in
-    range (0 included) is kept; bad ports are rejected (exact precedence: `C17_build_port_rejects`) -/
+/-- build(host=…, port=…): a port equal to the default of the LOWERED scheme `sc` (fix e21485a: the scheme is
+    stored lower-case, so `build(scheme="HTTP", port=80)` drops the port) is DROPPED at build time, any other port
+    in range (0 included) is kept; bad ports are rejected (exact precedence: `C17_build_port_rejects`).  `sc` is
+    `lower a.scheme` for an ASCII scheme (`C17_headline_build_port_ascii`), the oracle's answer otherwise. -/
 theorem C17_headline_build_port (e : Env) (a : BuildArgs) (u : Url) (henc : a.encoded = false)
-    (hauth : a.authority = []) (hhost : a.host ≠ []) : build e a = .ok u →
+    (hauth : a.authority = []) (hhost : a.host ≠ []) (sc : Str) (hsc : lowerAny e a.scheme = .ok sc) :
+    build e a = .ok u →
+    u.scheme = sc ∧
     explicitPort e u = .ok (match a.port with
       | none => none
-      | some p => if some p.toNat = defaultPort a.scheme then none else some p.toNat) ∧
+      | some p => if some p.toNat = defaultPort sc then none else some p.toNat) ∧
     port e u = .ok (match a.port with
-      | none => defaultPort a.scheme
+      | none => defaultPort sc
+      | some p => some p.toNat) := by
+  intro hb
+  obtain ⟨sc', hsc', hs⟩ := C17_build_lowered e a u henc hb
+  have : sc' = sc := by rw [hsc] at hsc'; exact (Except.ok.inj hsc').symm
+  exact ⟨by rw [hs, this], (C17_build_port e a u henc hauth hhost sc hsc hb).1,
+    C17_build_port_value e a u henc hauth hhost sc hsc hb⟩
+
+/-- the ASCII instance, unconditional in the lowering step -/
+theorem C17_headline_build_port_ascii (e : Env) (a : BuildArgs) (u : Url) (henc : a.encoded = false)
+    (hauth : a.authority = []) (hhost : a.host ≠ []) (hasc : isAscii a.scheme = true) :
+    build e a = .ok u →
+    u.scheme = lower a.scheme ∧
+    explicitPort e u = .ok (match a.port with
+      | none => none
+      | some p => if some p.toNat = defaultPort (lower a.scheme) then none else some p.toNat) ∧
+    port e u = .ok (match a.port with
+      | none => defaultPort (lower a.scheme)
       | some p => some p.toNat) :=
-  fun hb => ⟨(C17_build_port e a u henc hauth hhost hb).1, C17_build_port_value e a u henc hauth hhost hb⟩
+  C17_headline_build_port e a u henc hauth hhost _ (BuildFix.lowerAny_ascii e a.scheme hasc)
 
 /-! ## non-vacuity -/
 private def e0 : Env := { b := .py, o := Oracles.empty }
